@@ -106,6 +106,11 @@ def r_tables(ctx):
         for p, g in F.fns.items():
             if 'OldNodeMode' in p and p.endswith('::try_from'):
                 tf = g
+        if tf is None:
+            # any byte -> old kind conversion of the upgrade module (`from_raw(u8) -> Option<OldNodeMode>`, ...)
+            cands = [g for p, g in F.fns.items() if p.startswith('upgrade::') and g.kind in ('Fn', 'AssocFn') and g.arg_count == 1
+                     and g.local_ty(1) == 'u8' and 'OldNodeMode' in g.ret_ty()]
+            tf = cands[0] if len(cands) == 1 else None
         if ctx.need(tf is not None, 'U1', 'TryFrom<u8> for OldNodeMode'):
             from props.C16 import enum_table
             table = enum_table(tf)
@@ -124,30 +129,39 @@ def r_tables(ctx):
     new_name = {int(v['discr']): v['name'] for v in nm['variants']}
 
     def table(P, with_item):
+        """P is a path suffix ('.node', '.left', '.right'): the key's / the link's NodeId wherever it is held"""
         out = {}
         for v in sorted(inv) + [max(inv) + 1]:
             for w in ((0, 1, 2) if with_item and inv.get(v) == 'Metadata' else (None,)):
                 enumeval.reset()
                 assume = {P + '.mode': v}
                 if w is not None:
-                    assume['key.node.item'] = w
-                ev = enumeval.Eval(F, f, assume=assume, watch=lambda t, P=P: t == P + '.mode').run()
+                    assume['.node.item'] = w
+                ev = enumeval.Eval(F, f, assume=assume, watch=lambda t, P=P: t.endswith(P + '.mode') or ('.' + t) == P + '.mode').run()
                 got = set()
                 for k2, vals in ev.assigned.items():
                     if vals is None:
                         got.add('?')
                     else:
                         got |= {new_name.get(x, x) for x in vals}
+                if with_item:
+                    # keys rebuilt with a constructor instead of being re-tagged in place: the kind of the key of every put
+                    # that can execute under this assumption
+                    for g0, c0, op0, w0, k0 in db_ops(F, [f]):
+                        if op0 == 'put' and k0 is not None and c0.bb in ev.reached:
+                            ki = key_info(c0.arg_term(k0))
+                            if ki and ki[0] in ('item', 'tree', 'metadata', 'updated', 'version'):
+                                got.add(ki[0].capitalize())
                 if got:
                     out[(inv.get(v, v), w)] = '/'.join(sorted(map(str, got)))
         return out
-    kt = table('key.node', True)
+    kt = table('.node', True)
     want_key = {('Item', None): 'Item', ('Tree', None): 'Tree', ('Metadata', 0): 'Metadata', ('Metadata', 1): 'Updated'}
     ctx.check(kt == want_key, rule, 'key-kind-table', f.loc(), 'key: %s' % kt,
               'the key kind table of the 0.4->0.5 upgrade is %s; it must be %s' % (kt, want_key))
     want_child = {('Item', None): 'Item', ('Tree', None): 'Tree', ('Metadata', None): 'Metadata'}
-    lt = table('split.left', False)
-    rt = table('split.right', False)
+    lt = table('.left', False)
+    rt = table('.right', False)
     ctx.check(lt == want_child, rule, 'left-child-table', f.loc(), 'left: %s' % lt, 'left child kinds are re-tagged by %s (from the left child\'s own old kind); expected %s' % (lt, want_child))
     ctx.check(rt == want_child, rule, 'right-child-table', f.loc(), 'right: %s' % rt, 'right child kinds are re-tagged by %s (from the right child\'s own old kind); expected %s' % (rt, want_child))
     return f
@@ -207,6 +221,20 @@ def r_writes(ctx, f):
     for g, c, op in puts:
         kt = strip(c.arg_term(2))
         good_key = root(kt)[0] == 'var' and root(kt)[2] == 'key'
+        ki0 = key_info(kt)
+        if not good_key and ki0 is not None and ki0[0] in ('item', 'tree', 'metadata', 'updated'):
+            # the key rebuilt with a constructor from the parts of the source key (instead of re-tagged in place)
+            def from_source(t, fld):
+                t0 = strip(t)
+                return t0[0] == 'field' and t0[2] == fld and any(x[0] == 'call' and x[1].endswith('Iterator::next') and any(
+                    y[0] == 'arg' and y[1] == rdb for y in walk(x)) for x in walk(t0))
+            okidx = from_source(ki0[1], 'index')
+            if ki0[0] in ('item', 'tree'):
+                good_key = okidx and from_source(ki0[2], 'item')
+            elif ki0[0] == 'metadata':
+                good_key = okidx
+            else:
+                good_key = okidx   # the id of an Updated key is checked below (updated-key-id)
         ctx.check(good_key, rule, 'put-key#%d' % len(seen), c.loc(), 'written under the re-tagged source key', 'a put of the upgrade uses another key than the re-tagged source key: %s' % show(kt))
         v = c.arg_term(3)
         vs = show(v)
@@ -235,6 +263,9 @@ def r_writes(ctx, f):
                         t = f.term(st['rv']['o']) if st['rv']['k'] == 'use' else ('unknown',)
                         assigns.append((bi, t))
             oka = any(inner and paths.mentions_call(t, inner[0].bb) and f.dominates(bi, c.bb) for bi, t in assigns)
+            if not oka and inner:
+                kiu = key_info(c.arg_term(2))
+                oka = kiu is not None and kiu[0] == 'updated' and kiu[2] is not None and paths.mentions_call(kiu[2], inner[0].bb)
             ctx.check(oka, rule, 'updated-key-id', c.loc(), 'key id = the element of the pending set', 'the Updated key is not written under the id of the pending element')
     ctx.check(seen == {'item-raw', 'tree-node', 'metadata', 'updated-unit'}, rule, 'put-classes', f.loc(), 'puts: %s' % sorted(seen),
               'the upgrade no longer writes the four kinds of entries (items raw, tree nodes, metadata, updated marks): %s' % sorted(seen))
